@@ -344,6 +344,27 @@ macro_rules! parts {
     }};
 }
 
+fn alpha_deep(cfg: &Cfg) -> Vec<Op> {
+    a_altresize(cfg, &[(1, 1), (2, 2), (3, 2), (2, 3), (2, 1)])
+}
+
+/// long chains of save / alternate screen / resize / restore / print
+fn deep_part<'a>(tier: Tier, sys: &'a Sys) -> Part<'a, Sys> {
+    Part {
+        name: "alt-resize-save-deep",
+        sys,
+        cfgs: match tier {
+            Tier::Quick => cfgs(&[(3, 2), (2, 2)], &[None, Some(0)]),
+            Tier::Thorough => cfgs(&[(3, 2), (2, 2), (1, 2), (2, 3), (4, 3)], &[None, Some(0), Some(2)]),
+        },
+        alphabet: &alpha_deep,
+        depth: tier.pick(6, 8),
+        seconds: tier.pick(20.0, 1800.0),
+        validated: false,
+        nontrivial: None,
+    }
+}
+
 fn make_sys(tier: Tier) -> Sys {
     Sys {
         extreme: a_extreme(),
@@ -357,6 +378,8 @@ pub fn run(ctx: &Ctx) -> Report {
     let sys = make_sys(ctx.tier);
     let p = parts!(ctx.tier, &sys);
     run_part(ctx, &mut rep, &p);
+    let plain = Sys { extreme: vec![], extreme_depth: 0, second: vec![] };
+    run_part(ctx, &mut rep, &deep_part(ctx.tier, &plain));
     sweep(ctx, &mut rep);
     rep.extra.insert("extreme_alphabet_size".into(), json!(sys.extreme.len()));
     rep.rule = "BFS over op histories (all functions, truncated sequences, resizes incl. 17x2 and 2x9, every Changes treatment) in an overflow-checks + debug-assertions build; every state also gets all read accessors, the same history through TextCollector, and (up to the extreme-layer depth) every extreme-parameter input followed by 9 ordinary ops; plus every listed Unicode scalar fed from every parser state. Oracle: no panic, watchdog, per-call allocation envelope".into();
@@ -380,6 +403,10 @@ pub fn replay(ctx: &Ctx, v: &Value) -> bool {
         return r.is_err();
     }
     let tier = if v["tier"] == "thorough" { Tier::Thorough } else { Tier::Quick };
+    if v["part"] == "alt-resize-save-deep" {
+        let plain = Sys { extreme: vec![], extreme_depth: 0, second: vec![] };
+        return replay_part(ctx, &deep_part(tier, &plain), v);
+    }
     let sys = make_sys(tier);
     let p = parts!(tier, &sys);
     replay_part(ctx, &p, v)
